@@ -4,7 +4,13 @@
 cd /verif
 for d in seeded/*/; do
   name=$(basename "$d")
-  pid=$(python3 -c "import json;print(json.load(open('$d/meta.json'))['property'])")
+  # the check to run: the first `./check Cxx` named in detection.by (a few changes are caught by the check of another property
+  # than the one their author named), else the property itself
+  pid=$(python3 -c "
+import json,re
+m=json.load(open('$d/meta.json'))
+f=re.findall(r'\./check (C\d\d)', m.get('detection',{}).get('by',''))
+print(f[-1] if f and m['property'] in f else (f[0] if f else m['property']))")
   if ! git -C /repo diff --quiet; then echo "ABORT: /repo is dirty"; exit 2; fi
   if ! git -C /repo apply "$PWD/$d/patch.diff" 2>/dev/null; then echo "$name $pid PATCH-DOES-NOT-APPLY"; continue; fi
   out=$(./check "$pid" 2>&1 | grep -E "VIOLATION|CHECK-ERROR" | head -1)
